@@ -20,15 +20,17 @@ def run(tier):
     ck.log("exec (scalars, control flow, calls): %d runs %s, %d distinct outputs" % (ne, dict(stats), distinct_out))
     ne2, stats2, distinct_out2, srcs2 = execstream.run(ck, nprog, ck.seed + 1, level=2, label="exec2")
     ck.log("exec (arrays, views, slice pointers, pointers, address assignment): %d runs %s, %d distinct outputs" % (ne2, dict(stats2), distinct_out2))
-    ne += ne2; distinct_out += distinct_out2
-    for k, v in stats2.items(): stats[k] += v
+    ne3, stats3, distinct_out3, srcs3 = execstream.run(ck, nprog, ck.seed + 5, level=3, label="exec3")
+    ck.log("exec (structs, words, constants, structure views and pointers): %d runs %s, %d distinct outputs" % (ne3, dict(stats3), distinct_out3))
+    ne += ne2 + ne3; distinct_out += distinct_out2 + distinct_out3
+    for k, v in list(stats2.items()) + list(stats3.items()): stats[k] += v
     from .. import cfgstream
     ncfg, cstats, csizes, cbad = cfgstream.run(ck, 300 if tier == "quick" else 20000, ck.seed + 2)
     if not proof_ok:
         ck.violation("tie-broken:proof", "Props/C01.v no longer checks against the regenerated tables", getattr(ck, "proof_output", "")[-2500:])
     ck.coverage.update(
         evaluations=n + ne + ncfg, distinct_nontrivial=accepted + distinct_out, exec_programs=ne, exec_stats=dict(stats), exec_distinct_outputs=distinct_out,
-        rule="exec stream: generated well-typed terminating programs (all primitive types, casts, if/else, goto, counted loops, nested blocks, by-value calls, print!; second half also arrays with literal and loop-driven indexing, |x|, view / slice-pointer / pointer parameters, pointer variables, address assignment) in random layouts, lli output and exit status vs the extracted interpreter on the generator's tree, every 4th program also in a second layout; distinct = distinct outputs; opcodes stream: every (binary op x 13 types), (unary op x 13), (comparison x 13), (cast 13x13) compiled by the real compiler; non-trivial = accepted pair whose IR opcode is compared with the generated table; cfg stream: random accepted control-flow skeletons, the blocks of the emitted IR must be exactly those of Model/Cfg.v (names, actions per block, terminators, targets)",
+        rule="exec stream: generated well-typed terminating programs (all primitive types, casts, if/else, goto, counted loops, nested blocks, by-value calls, print!; second half also arrays with literal and loop-driven indexing, |x|, view / slice-pointer / pointer parameters, pointer variables, address assignment; last third also constants defined by constant expressions, structures and words with member reads and writes, structure views and pointers to structures) in random layouts, lli output and exit status vs the extracted interpreter on the generator's tree, every 4th program also in a second layout; distinct = distinct outputs; opcodes stream: every (binary op x 13 types), (unary op x 13), (comparison x 13), (cast 13x13) compiled by the real compiler; non-trivial = accepted pair whose IR opcode is compared with the generated table; cfg stream: random accepted control-flow skeletons, the blocks of the emitted IR must be exactly those of Model/Cfg.v (names, actions per block, terminators, targets)",
         opcode_mismatches=len(mism), cfg_skeletons=ncfg, cfg_stats=dict(cstats), cfg_block_counts=dict(csizes),
         samples=[dict(case="exec", source=srcs[0][1]), dict(case="B / i8", source="fn f(a: i8, b: i8) -> i8 { return: a / b }", expected="sdiv"),
                  dict(case="K i8 u32", source="fn f(a: i8) -> u32 { return: a as u32 }", expected="sext")])
